@@ -1,0 +1,66 @@
+//go:build verif
+
+// Purpose: Scheduling hooks for the external model-checking controller.
+// Exports: none.
+// Role: Parks the process before each operation on shared store state.
+// Invariants: Inert unless ERGO_VERIF_SOCK is set; never touches the store.
+// Notes: Compiled only with `-tags verif`; see /verif/DESIGN.md section 6.
+package ergo
+
+import (
+	"fmt"
+	"io"
+	"net"
+	"os"
+)
+
+var (
+	verifConn    net.Conn
+	verifDialed  bool
+	verifLastOff = map[*os.File]int64{}
+)
+
+// verifPoint announces the next shared-state operation to the controller and
+// blocks until the controller lets this process continue.
+func verifPoint(name string) {
+	sock := os.Getenv("ERGO_VERIF_SOCK")
+	if sock == "" {
+		return
+	}
+	if !verifDialed {
+		verifDialed = true
+		conn, err := net.Dial("unix", sock)
+		if err != nil {
+			fmt.Fprintln(os.Stderr, "verif: cannot reach controller:", err)
+			os.Exit(97)
+		}
+		verifConn = conn
+		fmt.Fprintf(conn, "hello %d %s\n", os.Getpid(), os.Getenv("ERGO_VERIF_ID"))
+	}
+	if _, err := fmt.Fprintf(verifConn, "%s\n", name); err != nil {
+		fmt.Fprintln(os.Stderr, "verif: controller write failed:", err)
+		os.Exit(97)
+	}
+	buf := make([]byte, 1)
+	if _, err := io.ReadFull(verifConn, buf); err != nil {
+		fmt.Fprintln(os.Stderr, "verif: controller read failed:", err)
+		os.Exit(97)
+	}
+}
+
+// verifScanPoint parks only when the file offset moved since the last call,
+// i.e. when a new read(2) has fetched data (one point per chunk, not per line).
+func verifScanPoint(f *os.File) {
+	if os.Getenv("ERGO_VERIF_SOCK") == "" || f == nil {
+		return
+	}
+	off, err := f.Seek(0, io.SeekCurrent)
+	if err != nil {
+		return
+	}
+	if last, ok := verifLastOff[f]; ok && last == off {
+		return
+	}
+	verifLastOff[f] = off
+	verifPoint(fmt.Sprintf("read.chunk@%d", off))
+}
